@@ -52,6 +52,7 @@ func (e *Engine) ExportImport() (src, dst []chain.KV, gs *ct.GenesisState, err e
 	cfg := e.Cfg
 	cfg.DB = nil
 	cfg.Genesis = gs
+	cfg.GenesisJSON = nil
 	cfg.Funded = map[string]*big.Int{}
 	for a, v := range e.ledgerSnapshot(nil) {
 		if a != "<supply>" && v.Sign() > 0 && validAddr(a) {
